@@ -122,7 +122,8 @@ def run_property(pid, tier, seed, write_baseline=False):
             continue
         still = None
         try:
-            still = mod.replay(f['witness'])[0] if f.get('witness') is not None else None
+            still = mod.replay({**f['witness'], 'finding_key': f['key']})[0] if isinstance(f.get('witness'), dict) else \
+                mod.replay(f['witness'])[0] if f.get('witness') is not None else None
         except Exception as e:  # noqa
             lines.append(f'NOTE known finding {f["id"]}: witness replay errored: {e!r}')
         if still is False:
